@@ -81,6 +81,16 @@ def gen_T20():
     tb = ' '.join(_norm(x) for x in t.body)
     need('loadPluginModule' in tb and 'die()' not in tb and 'loadPluginClass' not in tb,
          'Owner.reload: the try body is no longer the import phase alone')
+    # fix C20.F26: nothing that can raise sits between removeCallback and the try: the old module's reload() hook is called
+    # inside it, first
+    need(_norm(t.body[0]) == "if hasattr(module, 'reload'):\n    x = module.reload()",
+         'Owner.reload: the try block no longer starts with the module-level reload() hook')
+    ifcb = [n for n in f.body if isinstance(n, ast.If) and _norm(n.test) == 'callbacks']
+    need(len(ifcb) == 1 and [type(x).__name__ for x in ifcb[0].body] == ['Assign', 'Try']
+         and _norm(ifcb[0].body[0]) == 'module = sys.modules.get(callbacks[0].__module__)',
+         'Owner.reload: statements other than the sys.modules.get lookup stand between removeCallback and the try block')
+    ld = find_def(ot, 'load', 'Owner')
+    need("if name.endswith('.py'):\n    name = name[:-3]" in [_norm(n) for n in ld.body], "Owner.load no longer strips a '.py' suffix")
     # die() of the old instances: exactly one call site in Owner.reload, inside the else clause (after the import succeeded)
     dies = [n for n in ast.walk(f) if isinstance(n, ast.Call) and isinstance(n.func, ast.Attribute) and n.func.attr == 'die']
     dies_else = [n for x in t.orelse for n in ast.walk(x) if isinstance(n, ast.Call) and isinstance(n.func, ast.Attribute) and n.func.attr == 'die']
